@@ -13,8 +13,11 @@ for id in "$@"; do
     (cd $wt && git apply OUT/$X.patch.diff) || { echo "{\"id\":\"$id\",\"x\":\"$X\",\"error\":\"patch does not apply\"}" > /verif/work/confirm4/${id}_$X.json; continue; }
     suite=$(cd $wt && cargo test --workspace --no-fail-fast --offline 2>&1 | grep -E "^test result" | awk '{p+=$4; f+=$6} END {print p" "f}')
     bash -c "$demo" > $wt/OUT/$X.confirm.with.log 2>&1; rc_with=$?
+    # demo commands that end in a clean-up step lose cargo's exit code: read the verdict from the log
+    if [ $rc_with -eq 0 ] && grep -qE "test result: FAILED|panicked at" $wt/OUT/$X.confirm.with.log; then rc_with=101; fi
     (cd $wt && git checkout -- . )
     bash -c "$demo" > $wt/OUT/$X.confirm.without.log 2>&1; rc_without=$?
+    if [ $rc_without -eq 0 ] && grep -qE "test result: FAILED|panicked at" $wt/OUT/$X.confirm.without.log; then rc_without=101; fi
     (cd $wt && git checkout -- . )
     echo "{\"id\":\"$id\",\"x\":\"$X\",\"suite_passed_failed\":\"$suite\",\"demo_rc_with_change\":$rc_with,\"demo_rc_without_change\":$rc_without}" > /verif/work/confirm4/${id}_$X.json
     cp $wt/OUT/$X.confirm.with.log /verif/work/confirm4/${id}_$X.with.log; cp $wt/OUT/$X.confirm.without.log /verif/work/confirm4/${id}_$X.without.log
